@@ -192,7 +192,34 @@ def rule_drain(ctx, M, u):
                 ok, bad = bi.must_reach([t for _, t in se], [s.block], [lp[0]] + list(bi.return_blocks))
                 if ok:
                     good_kr.append((s, nxt))
-    drains = bool(good_kr) and scan.loop_item_root(good_kr[0][0].arg(1))[2][0][1][1] == "drain"
+    # closure form: `queue.iter().for_each(|key| { keys.remove(key); })` - every item, once, no early exit
+    foreach = None
+    if not good_kr:
+        for s in bi.sites:
+            if s.callee.name == "for_each" and s.args and len(s.args) >= 2:
+                it, cl_t = s.arg(0), s.arg(1)
+                if not (it[0] == "call" and it[1][1] in ("iter", "drain", "into_iter") and it[2] and it[2][0] == q):
+                    continue
+                cp = cl_t[1][1] if cl_t[0] == "agg" and isinstance(cl_t[1], tuple) and cl_t[1][0] == "closure" else (cl_t[1] if cl_t[0] == "closure" else None)
+                cb = M.by_cdef.get(cp) if cp else None
+                if cb is None:
+                    continue
+                cbi = M.info(cb)
+                rem = [x for x in cbi.sites if x.key == ("BTreeSet", "remove")]
+                caps = cl_t[2] if cl_t[0] == "agg" else ()
+                if len(rem) == 1 and rem[0].arg(1) == ("param", 2) and all(cb.dominates(rem[0].block, r_) for r_ in cbi.return_blocks) \
+                        and any(c_ == sf("keys") for c_ in caps):
+                    foreach = s
+    if foreach is not None:
+        class _N:
+            pass
+        nx = _N()
+        nx.block = foreach.block
+        good_kr = [(foreach, nx)]
+        kr = kr + [foreach]
+    drains = bool(good_kr) and foreach is None and scan.loop_item_root(good_kr[0][0].arg(1))[2][0][1][1] == "drain"
+    if foreach is not None and foreach.arg(0)[1][1] == "drain":
+        drains = True
     if len(good_kr) != 1:
         probs.append("no loop removing every queued key from `keys`")
     if len(cl) != 1 and not drains:
@@ -221,7 +248,7 @@ def rule_drain(ctx, M, u):
             if not ok:
                 probs.append("%s is not reached on every path from a member's end to the return" % name)
         # clear only after the loop is exhausted
-        exit_e = bi.outcome_edges(nxt, "None")
+        exit_e = bi.outcome_edges(nxt, "None") if foreach is None else ([(foreach.block, foreach.target)] if foreach.target is not None else [])
         if not drains and (not exit_e or not bi.guarded_by(cl[0].block, exit_e)):
             probs.append("the queue is cleared before every queued key was removed")
     ctx.check(not probs, "C12.DRAIN", u.where, "queued keys are all removed from `keys`, then the queue is cleared, before the return",
